@@ -15,7 +15,7 @@ class TooLarge(Exception):
 class Fst:
     def __init__(self, states, trans, starts, finals):
         self.trans = sorted({(p, a, q, tuple(o)) for p, a, q, o in trans},
-                            key=lambda t: (str(t[0]), "" if t[1] is None else "~" + str(t[1]), str(t[2]), t[3]))
+                            key=lambda t: (str(t[0]), "" if t[1] is None else "~" + str(t[1]), str(t[2]), tuple(map(repr, t[3]))))
         self.states = set(states) | {t[0] for t in self.trans} | {t[2] for t in self.trans} | set(starts) | set(finals)
         self.starts = set(starts)
         self.finals = set(finals)
